@@ -189,6 +189,7 @@ class _Method:
         self.fn = fn
         self.node = _fn_node(fn)
         self.recname = recname
+        self.packed = set()      # local names bound to <record>._packdict()
 
     def bad(self, node, what):
         raise Unsupported("%s: %s: %s" % (self.fn.__qualname__, what, ast.unparse(node)[:100]))
@@ -196,6 +197,12 @@ class _Method:
     def is_rdesc(self, n):
         return (self.recname and isinstance(n, ast.Attribute) and n.attr == "_desc" and isinstance(n.value, ast.Name)
                 and n.value.id == self.recname)
+
+    def is_packdict(self, a):
+        if isinstance(a, ast.Name) and a.id in self.packed:
+            return True
+        return (isinstance(a, ast.Call) and isinstance(a.func, ast.Attribute) and a.func.attr == "_packdict"
+                and isinstance(a.func.value, ast.Name) and a.func.value.id == self.recname and not a.args and not a.keywords)
 
     def cond(self, t):
         if isinstance(t, ast.UnaryOp) and isinstance(t.op, ast.Not):
@@ -255,6 +262,9 @@ class _Method:
                 return "RaiseMixed"
         if isinstance(st, ast.Assign) and len(st.targets) == 1:
             tg, v = st.targets[0], st.value
+            if isinstance(tg, ast.Name) and self.is_packdict(v):
+                self.packed.add(tg.id)       # data = r._packdict(): no effect on the writer
+                return None
             if _is_self(tg, "desc") and self.is_rdesc(v):
                 return "SetDesc"
             if (_is_self(tg, "schema") and isinstance(v, ast.Call) and isinstance(v.func, ast.Name)
@@ -286,11 +296,13 @@ class _Method:
             c = st.value
             f = c.func
             if isinstance(f, ast.Attribute) and not c.keywords:
-                if _is_self(f.value, "writer") and f.attr == "write" and len(c.args) == 1:
-                    a = c.args[0]
-                    if (isinstance(a, ast.Call) and isinstance(a.func, ast.Attribute) and a.func.attr == "_packdict"
-                            and isinstance(a.func.value, ast.Name) and a.func.value.id == self.recname and not a.args):
-                        return "WriterWrite"
+                if _is_self(f.value, "writer") and f.attr == "write" and len(c.args) == 1 and self.is_packdict(c.args[0]):
+                    return "WriterWrite"
+                # fastavro.schemaless_writer(io.BytesIO(), self.parsed_schema, <packed record>)
+                if (ast.unparse(f) in ("fastavro.schemaless_writer", "schemaless_writer") and len(c.args) == 3
+                        and ast.unparse(c.args[0]) in ("io.BytesIO()", "BytesIO()") and _is_self(c.args[1], "parsed_schema")
+                        and self.is_packdict(c.args[2])):
+                    return "DryRun"
                 if _is_self(f.value, "writer") and f.attr == "flush" and not c.args:
                     return "WriterFlush"
                 if isinstance(f.value, ast.Name) and f.value.id == "self" and f.attr == "flush" and not c.args:
